@@ -2044,7 +2044,6 @@ pub proof fn theorem_lines_roundtrip(ls: Seq<Seq<char>>)
 //@ obligation lemma_each_line_front props=C06
 //@ obligation theorem_lines_roundtrip props=C06
 impl Str {
-    #[verifier::external_body] pub fn new() -> (r: Str) ensures r@ == Seq::<char>::empty() { unimplemented!() }
 }
 impl MemfsFile {
     // ASSUMED[io-read-to-string]: Read::read_to_string appends the UTF-8 decoding of all bytes from the position to the end (delivered by
